@@ -72,6 +72,43 @@ def frank_residual(alpha, tau):
     return ir.add(ir.div(ir.mul(4, ir.sub(debye, 1)), alpha), 1, ir.neg(tau))
 
 
+def frank_tau_of_theta(th):
+    """Kendall's tau of the Frank copula with parameter th: 1 + 4 (D1(th) - 1)/th, mpmath quadrature at 30 digits"""
+    import mpmath
+    mpmath.mp.dps = 30
+    th = mpmath.mpf(th)
+    if th == 0:
+        return mpmath.mpf(0)
+    a = abs(th)
+    d1 = mpmath.quad(lambda t: t / mpmath.expm1(t), [0, 1, 10, 50, a] if a > 50 else [0, a]) / a
+    t = 1 + 4 * (d1 - 1) / a
+    return t if th > 0 else -t
+
+
+def bounds_replay(env):
+    import numpy as np
+    import warnings
+    warnings.simplefilter('ignore')
+    from copulas.bivariate import Frank
+    bad = []
+    taus = [-0.95, -0.9, -0.8, -0.78, -0.5, 0.5, 0.8, 0.9, 0.95]
+    t = env.get('tau_b') if isinstance(env, dict) else None
+    try:
+        t = float(t)
+        if -1 < t < 1 and t != 0:
+            taus.insert(0, t)
+    except Exception:     # noqa
+        pass
+    for tau in taus:
+        c = Frank()
+        c.tau = tau
+        th = c.compute_theta()
+        back = float(frank_tau_of_theta(th))
+        if abs(back - tau) > 1e-6:
+            bad.append('Frank with tau = %r: compute_theta() = %r, whose Kendall tau is %.6f' % (tau, float(th), back))
+    return {'confirmed': bool(bad), 'detail': '; '.join(bad[:4]) if bad else 'compute_theta inverts tau natively on the probes'}
+
+
 def admissible(fam, th):
     if fam == 'clayton':
         return ir.gt(th, 0)
@@ -162,6 +199,24 @@ def build(chk):
                                free_ufs_ok=True, clause='theta is the root found by least_squares'))
                 for e in lsq:
                     d = e.data
+                    # the assumed contract of least_squares promises a root only if one lies inside the bounds handed to it:
+                    # tau(theta) is increasing (cited), so the bounds admit the root of every tau in [tau(lo), tau(hi)]
+                    try:
+                        # the bounds are closed terms (logarithms of the float limits): evaluated numerically
+                        lo_n, hi_n = float(ir.evaluate(d['lo'], {})), float(ir.evaluate(d['hi'], {}))
+                    except Exception:       # noqa
+                        lo_n = hi_n = None
+                    tb = ir.var('tau_b')
+                    if lo_n is None or hi_n is None:
+                        chk.undecided.append(('C10.frank.fit.bounds_admit_root.%d' % nret, 'contract', 'symbolic bounds'))
+                    else:
+                        t_lo, t_hi = frank_tau_of_theta(float(lo_n)), frank_tau_of_theta(float(hi_n))
+                        chk.add(Ob('C10.frank.fit.bounds_admit_root.%d' % nret, hy + dom + [ir.eq(tb, KT)],
+                                   ir.and_(ir.le(ir.const(float(t_lo) + 1e-9), tb), ir.le(tb, ir.const(float(t_hi) - 1e-9))),
+                                   function=cls + '.compute_theta', free_ufs_ok=True, replay=bounds_replay,
+                                   clause='the search bounds given to least_squares [%.6g, %.6g] contain the theta of every '
+                                          'tau in (-1, 1): tau(lo) = %.6f <= tau <= tau(hi) = %.6f'
+                                          % (float(lo_n), float(hi_n), float(t_lo), float(t_hi))))
                     chk.add(Ob('C10.frank.fit.theta_is_root.%d' % nret, hy, ir.eq(th_t, d['x']), function=fq,
                                free_ufs_ok=True, clause='theta is the least_squares solution'))
                     chk.add(Ob('C10.frank.fit.residual_is_debye_relation.%d' % nret, hy,
